@@ -23,24 +23,16 @@ def run(ctx):
     ctx.fingerprint(FILES)
     ctx.translate(["Z3"])
     built = ctx.build(ctx.pid, deps=["Model/Z3Model.v"])
-    n = 90 if quick else 900
-    specs = []
-    for i in range(n):
-        prof = ["mixed", "mixed", "dag", "busy", "odd"][i % 5]
-        specs.append(Z.gen_spec(ctx.rng, prof))
+    n = 100 if quick else 1200
+    specs = [Z.gen_spec(ctx.rng, ["dag", "mixed", "dag", "busy", "odd"][i % 5]) for i in range(n)]
     res = Z.run_specs(ctx, specs, n_models=5 if quick else 8, n_rand=8 if quick else 16)
-    ctx.rules.append(
-        "S-z3: generated worlds (1-3 workers in 1-2 pools, 1-2 resource types with per-key totals 1-3, 1-2 task graphs "
-        "of 1-4 tasks with random DAG edges and 1-2 strategies each, states released / virtual / running (holding "
-        "resources) / scheduled / completed, lookahead, retract_schedules, release_taskgraphs, enforce_deadlines, rarely "
-        "preemptive) are built as real Task/TaskGraph/Workload/Worker/WorkerPools objects; the real "
-        "Z3Scheduler.schedule() runs with z3.Optimize.check wrapped; distinct = distinct extracted instance; "
-        "non-trivial = at least two offered tasks one of which is a co-decided parent of another, or the call raises")
+    ctx.rules.append(Z.RULE + "; non-trivial = at least two offered tasks one of which is a co-decided parent of another, "
+                              "or the call raises")
+    dist = {"offered": {}, "errors": 0, "with_codecided_parent": 0, "outside_parent": 0, "busy_workers": 0,
+            "adversarial_found": {}, "multi_parent": 0}
+    gis = Z.tie_streams(ctx, specs, res, dist)
     seen = set()
     nontriv = 0
-    dist = {"offered": {}, "errors": 0, "with_codecided_parent": 0, "outside_parent": 0, "busy_workers": 0,
-            "rows": 0, "candidates": 0, "candidates_sat": 0, "adversarial_found": {}}
-    rows_cases, sat_cases, rb_cases = [], [], []
     mon, mon_where = [], []
     out_mon, out_where = [], []
     for i, (spec, r) in enumerate(zip(specs, res)):
@@ -55,34 +47,14 @@ def run(ctx):
         dist["offered"][len(inst["tasks"])] = dist["offered"].get(len(inst["tasks"]), 0) + 1
         dist["errors"] += bool(r["error"])
         dist["with_codecided_parent"] += has_par
+        dist["multi_parent"] += any(len([p for p in t["parents"] if p in ids]) >= 2 for t in inst["tasks"])
         dist["outside_parent"] += Z.sig_outside_parent(inst)
         dist["busy_workers"] += any(a != t for w in inst["workers"] for _, t, a in w["res"])
-        if Z.sig_duplicates(inst):
-            continue                      # F10 (other property): a task offered twice; the dict keeps one entry
-        gi = Z.g_instance(inst)
-        if r["error"]:
-            exp = [1, r["error"][0]]
-            rows_cases.append(("(%s, [])" % gi, exp, {"spec": spec, "error": r["error"]}))
+        if i not in gis:
             continue
-        if r.get("formulas") is None:
-            ctx.violation("dump%d" % i, {"stream": "S-z3-rows", "spec": spec, "what": "the scheduler asserted a row outside the "
-                                          "modelled language: " + str(r.get("dump_error"))})
-            continue
-        dist["rows"] += len(r["formulas"])
-        rows_cases.append(("(%s, %s)" % (gi, glist([gval(f) for f in r["formulas"]])), [0, [], []],
-                           {"spec": spec, "n_rows": len(r["formulas"])}))
-        cands = r["candidates"]
-        dist["candidates"] += len(cands)
-        dist["candidates_sat"] += sum(c[1] for c in cands)
-        sat_cases.append(("(%s, %s)" % (gi, glist([Z.g_asg(c[0]) for c in cands])), [0, [c[1] for c in cands]],
-                          {"spec": spec, "n_candidates": len(cands)}))
-        if r.get("solver_model") is not None:
-            rb_cases.append(("(%s, %s)" % (gi, Z.g_asg(r["solver_model"])), [0, Z.canon_placements(r)], {"spec": spec}))
+        gi = gis[i]
         # monitors: feasible points of the live system, adversarial points, the optimum, the returned placements
-        points = [("feasible", a) for a in r["feasible"]] + [("adversarial:" + k, a) for k, a in r["adversarial"]]
-        if r.get("solver_model") is not None:
-            points.append(("optimum", r["solver_model"]))
-        points.append(("returned", Z.placements_asg(r)))
+        points = Z.points_of(r) + [("returned", Z.placements_asg(r))]
         for k, a in r["adversarial"]:
             dist["adversarial_found"][k] = dist["adversarial_found"].get(k, 0) + 1
         outs = [[o[0], o[3]] for o in inst["outside_parents"] if o[2] in (3, 4) and o[3] is not None]
@@ -96,24 +68,6 @@ def run(ctx):
     ctx.cov["input_distribution"] = dist
     ctx.sample({"stream": "S-z3-rows", "spec": specs[0], "instance": res[0]["instance"],
                 "rows": (res[0].get("formulas") or [])[:3]})
-
-    def stream(name, in_type, fn, cases, what):
-        try:
-            mism = ctx.model_stream(name, Z.HEADER, in_type, fn, cases, shard=40)
-            for idx, mv in mism[:3]:
-                ctx.violation("%s%d" % (name.replace("-", ""), idx),
-                              {"stream": name, "case": cases[idx][2], "expected_from_implementation": cases[idx][1],
-                               "model": mv, "what": what})
-        except core.ModelEvalError as e:
-            ctx.broken.append({"kind": "correspondence", "name": name, "detail": str(e)[-600:]})
-
-    stream("S-z3-rows", "instance * list val", "obs_rows", rows_cases,
-           "the rows asserted by Z3Scheduler differ from gen_z3 (model rows missing in the implementation / implementation "
-           "rows missing in the model), or one side raises and the other does not")
-    stream("S-z3-sat", "instance * list (list (var * Z))", "obs_sat", sat_cases,
-           "z3's evaluation of the asserted rows and the model's sat disagree on a candidate assignment")
-    stream("S-z3-readback", "instance * list (var * Z)", "obs_readback", rb_cases,
-           "the returned placements differ from readback of the solver's values")
 
     # ---------------- monitors
     def pyfallback(inst, a):
